@@ -154,6 +154,16 @@ check("C17", "fallback-tag referrers converted without loss, repeatably", "explo
       "DESIGN.md §3 C17",
       [R("^TestC17$", 300, 8000, timeout=(900, 3300))], variant="vfs")
 
+check("C14", "read-only stores and disabled APIs change nothing", "exploration",
+      "rapid generator of pre-built roots (healthy/legacy/corrupt) x switch combinations x request mixes; oracle = byte/mtime-exact snapshot of the root and its parent + status class per switch + read sweep",
+      "Randomised search over pre-existing directory contents (produced by a writable server, by the legacy-layout generator, or corrupted in six ways), the read-only/mem-over-dir/"
+      "switch-off configurations with every combination of the push/delete/blob-delete/referrer switches and a 1 ms GC ticker, and request mixes containing every method on every endpoint; "
+      "after Close the tree (names, modes, sizes, hashes, mtimes of files and directories, including the parent directory) must be identical.",
+      "Trusted: os.Stat mtimes with nanosecond resolution on the scratch file system; read expectations only for healthy and adoptable roots (open finding C14/ro-legacy-regeneration; corrupt "
+      "roots answer depending on the store's 1 s re-check window).",
+      "DESIGN.md §3 C14",
+      [R("^TestC14$", 1600, 50000)])
+
 NOT_APPLICABLE = {}
 
 # --------------------------------------------------------------------------- helpers
